@@ -304,6 +304,9 @@ def real_guard(op) -> bool:
                 and bshape(q.shape, op.angles.shape) == tuple(q.shape))
     if isinstance(op, j['hwp'].HWPOperator):
         return A.is_stokes(op.in_structure())
+    if isinstance(op, j['pol'].LinearPolarizerOperator):
+        # 0.5 * x on integer data is weakly typed: the dtype of a product with it is decided by the other factor
+        return all(np.issubdtype(np.dtype(l.dtype), np.inexact) for l in leaves(op.in_structure()))
     if A.wrap_kind(op) in ('WTranspose', 'WObsT'):
         # jax.linear_transpose: [float or complex] -> [float or complex] or integer -> integer only
         ls = [np.dtype(l.dtype) for s in (op.operator.in_structure(), op.operator.out_structure()) for l in leaves(s)]
